@@ -2,6 +2,7 @@ package main
 
 import (
 	"fmt"
+	"go/token"
 	"strings"
 
 	"golang.org/x/tools/go/ssa"
@@ -210,7 +211,65 @@ func httpErrorStatus(c ssa.CallInstruction) (int64, bool) {
 	if calleeName(c) != "net/http.Error" || len(c.Common().Args) < 3 {
 		return 0, false
 	}
-	return constInt(c.Common().Args[2])
+	vals, ok := constIntSet(c.Common().Args[2], 0)
+	if !ok || len(vals) == 0 {
+		return 0, false
+	}
+	min := vals[0]
+	for _, v := range vals {
+		if v < min {
+			min = v
+		}
+	}
+	return min, true
+}
+
+// constIntSet: the constants an integer value can be: a constant, a phi of such, or a local / captured variable
+// every assignment of which is such (`status := 500; if tooLarge { status = 413 }`). The smallest is what callers
+// compare with a lower bound.
+func constIntSet(v ssa.Value, depth int) ([]int64, bool) {
+	if depth > 6 {
+		return nil, false
+	}
+	if c, ok := constInt(v); ok {
+		return []int64{c}, true
+	}
+	switch x := v.(type) {
+	case *ssa.Phi:
+		var out []int64
+		for _, e := range x.Edges {
+			s, ok := constIntSet(e, depth+1)
+			if !ok {
+				return nil, false
+			}
+			out = append(out, s...)
+		}
+		return out, true
+	case *ssa.Convert:
+		return constIntSet(x.X, depth+1)
+	case *ssa.UnOp:
+		if x.Op != token.MUL || gFacts == nil {
+			return nil, false
+		}
+		cell := gFacts.ownerCell(x.X)
+		if cell == nil {
+			return nil, false
+		}
+		st := gFacts.storesToCell(cell)
+		if len(st) == 0 {
+			return nil, false
+		}
+		var out []int64
+		for _, s := range st {
+			vs, ok := constIntSet(s, depth+1)
+			if !ok {
+				return nil, false
+			}
+			out = append(out, vs...)
+		}
+		return out, true
+	}
+	return nil, false
 }
 
 // moduleCallee: the module function a call invokes: its static callee, or the single closure a function value
